@@ -764,9 +764,12 @@ func (p *parser) parseInfixExpression() (*astNode, error) {
 		}
 		switch car.typ {
 		case ident:
-			err = buildTopOperators(car)
-			if err != nil {
-				return nil, err
+			// a prefix operator has no left operand: it must not reduce the operators before it
+			if p.getInfixOpInfo(car.val).childCount != 1 {
+				err = buildTopOperators(car)
+				if err != nil {
+					return nil, err
+				}
 			}
 			operatorStack = append(operatorStack, op{t: car, l: len(outputStack)})
 		case lParen:
